@@ -425,4 +425,5 @@ def replay(path):
     wd = clih.fresh_dir("c19r")
     ex, out, argv, errs = run_config(c, wd)
     print("exit", ex, errs, {k: (f, len(r)) for k, (f, r) in out.items()})
-    return 1
+    import sys
+    return common.replay_by_rerun(sys.modules[__name__], PROP, path)
